@@ -6,6 +6,7 @@ import (
 	"github.com/orda-io/orda/client/pkg/errors"
 	"github.com/orda-io/orda/client/pkg/iface"
 	"github.com/orda-io/orda/client/pkg/model"
+	"github.com/orda-io/orda/client/pkg/vhook"
 	"strings"
 
 	"golang.org/x/sync/semaphore"
@@ -36,7 +37,10 @@ func NewDatatypeManager(ctx *context.ClientContext, sm *SyncManager) *DatatypeMa
 // DeliverTransaction delivers a transaction
 func (its *DatatypeManager) DeliverTransaction(wired iface.WiredDatatype) {
 	if its.ctx.Client.SyncType == model.SyncType_REALTIME {
+		vhook.Go()
 		go func() {
+			defer vhook.Done()
+			vhook.At("dm.deliver.start")
 			if !its.sema.TryAcquire(1) {
 
 				return
@@ -71,6 +75,9 @@ func (its *DatatypeManager) ExistDatatype(key string, typeOf model.TypeOfDatatyp
 
 // ReceiveNotification enables datatype to sync when it receives notification
 func (its *DatatypeManager) ReceiveNotification(topic string, notification model.Notification) {
+	vhook.Go()
+	defer vhook.Done()
+	vhook.At("dm.notification", its.ctx.Client.CUID, notification.CUID, notification.Sseq)
 	if its.ctx.Client.CUID == notification.CUID {
 		its.ctx.L().Infof("drain own notification")
 		return
